@@ -278,7 +278,7 @@ func RefLex(in string) RefResult {
 			if strings.ContainsAny(v, "\n\\") || !utf8.ValidString(v) || v == "" {
 				return ambig("newline, backslash, invalid UTF-8 or nothing in backtick identifier")
 			}
-			res.Toks = append(res.Toks, RefTok{Class: "btident", Off: i, End: j, Exp: []Expect{{Kinds: kIdent, Value: v}}})
+			res.Toks = append(res.Toks, RefTok{Class: "btident", Off: i, End: j, Exp: []Expect{{Kinds: kBtIdent, Value: v}}})
 			i = j
 		case c == '$':
 			j := i + 1
